@@ -71,7 +71,10 @@ def build_od(with_pdo, map_mode):
     od.add_object(world.var("Modes of operation display", 0x6061, 0, odm.INTEGER8, "ro"))
     od.add_object(world.var("Supported drive modes", 0x6502, 0, odm.UNSIGNED32, "ro"))
     if with_pdo:
-        for base_c, base_m, name in ((0x1400, 0x1600, "RPDO1"), (0x1800, 0x1A00, "TPDO1")):
+        pdos = [(0x1400, 0x1600, "RPDO1"), (0x1800, 0x1A00, "TPDO1")]
+        if map_mode == 2:       # the mode objects travel in PDOs of their own
+            pdos += [(0x1401, 0x1601, "RPDO2"), (0x1801, 0x1A01, "TPDO2")]
+        for base_c, base_m, name in pdos:
             od.add_object(world.record(name + " comm", base_c, [
                 world.var("n", base_c, 0, odm.UNSIGNED8, "ro"),
                 world.var("COB-ID", base_c, 1, odm.UNSIGNED32, "rw"),
@@ -82,7 +85,7 @@ def build_od(with_pdo, map_mode):
 
 
 class W:
-    def __init__(self, ctx, transport, map_mode=False, auto=5 * MS):
+    def __init__(self, ctx, transport, map_mode=0, auto=5 * MS):
         self.ctx = ctx
         self.ch = world.make_channel(ctx, swarm=False)
         self.net, self.bus = world.make_network(ctx, self.ch, "master")
@@ -104,9 +107,18 @@ class W:
             s[(0x1800, 0)] = b"\x02"
             s[(0x1800, 1)] = d.tpdo_cob.to_bytes(4, "little")
             s[(0x1800, 2)] = b"\xff" if transport == "pdo-event" else b"\x01"
-            rmap = [0x60400010] + ([0x60600008] if map_mode else [])
-            tmap = [0x60410010] + ([0x60610008] if map_mode else [])
-            for base, mp in ((0x1600, rmap), (0x1A00, tmap)):
+            rmap = [0x60400010] + ([0x60600008] if map_mode == 1 else [])
+            tmap = [0x60410010] + ([0x60610008] if map_mode == 1 else [])
+            maps = [(0x1600, rmap), (0x1A00, tmap)]
+            if map_mode == 2:
+                s[(0x1401, 0)] = b"\x02"
+                s[(0x1401, 1)] = d.rpdo2_cob.to_bytes(4, "little")
+                s[(0x1401, 2)] = b"\xff"
+                s[(0x1801, 0)] = b"\x02"
+                s[(0x1801, 1)] = d.tpdo2_cob.to_bytes(4, "little")
+                s[(0x1801, 2)] = s[(0x1800, 2)]
+                maps += [(0x1601, [0x60600008]), (0x1A01, [0x60610008])]
+            for base, mp in maps:
                 s[(base, 0)] = bytes([len(mp)])
                 for k in range(8):
                     s[(base, k + 1)] = (mp[k] if k < len(mp) else 0).to_bytes(4, "little")
@@ -130,6 +142,8 @@ class W:
             self.ctx.run_for(d.period + 1 * MS)     # the library has seen one report
         elif d.transport == "pdo-event":
             d.send_tpdo()
+            if d.map_mode == 2:
+                d.send_tpdo2()
         self.ctx.run_for(1 * MS)
 
 
@@ -234,7 +248,7 @@ def scenario(ctx):
         for k in range(10):
             if mask_bits >> k & 1:
                 supported |= 1 << positions[k]
-        w = W(ctx, TRANSPORTS[ctx.choice(3, "tr")], map_mode=ctx.choice(2, "mapmode") == 1)
+        w = W(ctx, TRANSPORTS[ctx.choice(3, "tr")], map_mode=ctx.choice(3, "mapmode"))
         w.drive.supported = supported
         w.drive.mode_delay = (200 * US, 5 * MS, 100 * MS)[ctx.choice(3, "mdelay")]
         w.setup(SOD)
@@ -274,7 +288,7 @@ def scenario(ctx):
     # seeded: up to 3 assignments with drive-side events in between
     transport = TRANSPORTS[ctx.choice(3, "tr")]
     timing = ctx.choice(8, "timing")
-    w = W(ctx, transport, map_mode=ctx.choice(2, "mapmode") == 1, auto=AUTO[timing] + ctx.choice(30, "jitter") * 50 * US)
+    w = W(ctx, transport, map_mode=ctx.choice(3, "mapmode"), auto=AUTO[timing] + ctx.choice(30, "jitter") * 50 * US)
     w.setup(STATES[ctx.choice(8, "initial")])
     if ctx.choice(4, "oldcw") == 0:
         # the controlword register still holds a fault-reset request from an earlier session
